@@ -171,14 +171,14 @@ theorem LoopBase.run {fixed : Bool} {s : MLoopSt} (h : LoopBase s) (acts : List 
     · exact ih h
 
 /-- the invariant of the REPAIRED loop. -/
-structure LoopInv (s : MLoopSt) : Prop where
+structure MLoopInv (s : MLoopSt) : Prop where
   base : LoopBase s
   /-- the assertion has not failed -/
   alive : s.pc ≠ .dead
   /-- while waiting on the event, the flag says exactly whether there is a wakeup -/
   waitIff : s.pc = .waiting → (s.flag = true ↔ s.wake ≠ [])
 
-theorem LoopInv.init : LoopInv {} :=
+theorem MLoopInv.init : MLoopInv {} :=
   ⟨LoopBase.init, by simp, by simp⟩
 
 theorem choose_pc_of_ne_nil (s : MLoopSt) (h : s.wake ≠ []) :
@@ -190,8 +190,8 @@ theorem choose_pc_of_ne_nil (s : MLoopSt) (h : s.wake ≠ []) :
     have : (firstWakeups s.wake).2 = none := by rw [hf]
     exact absurd ((firstWakeups_none _).mp this) h
 
-theorem LoopInv.step {s s' : MLoopSt} {a : MLoopAct} (h : LoopInv s)
-    (hs : s.step true a = some s') : LoopInv s' := by
+theorem MLoopInv.step {s s' : MLoopSt} {a : MLoopAct} (h : MLoopInv s)
+    (hs : s.step true a = some s') : MLoopInv s' := by
   refine ⟨h.base.step hs, ?_, ?_⟩
   · -- alive
     have hal := h.alive
@@ -281,8 +281,8 @@ theorem LoopInv.step {s s' : MLoopSt} {a : MLoopAct} (h : LoopInv s)
       · simp only [Option.some.injEq] at hs; subst hs; simp
       · simp at hs
 
-theorem LoopInv.run {s : MLoopSt} (h : LoopInv s) (acts : List MLoopAct) :
-    LoopInv (s.run true acts) := by
+theorem MLoopInv.run {s : MLoopSt} (h : MLoopInv s) (acts : List MLoopAct) :
+    MLoopInv (s.run true acts) := by
   induction acts generalizing s with
   | nil => exact h
   | cons a as ih =>
